@@ -155,8 +155,8 @@ inline bytes gen_key_bytes(const KeyUniverse &u, bool allow_huge) {
     case 1: return u.long_prefix.expand() + gen_small(u);
     case 2: {  // lengths straddling varint boundaries
       int target;
-      if (allow_huge && chance(25)) target = pick(16382, 16385);
-      else target = pick(126, 130);
+      if (allow_huge && chance(25)) target = chance(70) ? pick(16382, 16385) : pick(65534, 65538);
+      else target = chance(65) ? pick(126, 130) : pick(254, 258);
       bytes head = gen_small(u, 3);
       BStr t;
       t.glen = (uint32_t)(target - (int)head.size());
@@ -194,8 +194,8 @@ inline BStr gen_value(size_t eff_block, int profile = 2) {
       break;
     }
     case 2: v.glen = (uint32_t)pick(100, 400); break;
-    case 3: v.glen = (uint32_t)pick(126, 130); break;
-    case 4: v.glen = (uint32_t)pick(16382, 16386); break;
+    case 3: v.glen = (uint32_t)(chance(60) ? pick(126, 130) : pick(254, 258)); break;
+    case 4: v.glen = (uint32_t)(chance(70) ? pick(16382, 16386) : pick(65534, 65538)); break;
     case 5: v.glen = (uint32_t)(eff_block > 70000 ? 70000 : eff_block) + (uint32_t)pick(1, 2000); break;
     default: v.glen = (uint32_t)pick(900, 1100); break;
   }
@@ -216,6 +216,18 @@ inline std::vector<SEntry> gen_table(size_t eff_block, int maxn, bool allow_huge
   int n = weighted({4, 6, 90}) == 0 ? 0 : pick(1, std::max(1, maxn));
   int profile = allow_huge ? weighted({25, 45, 30}) : weighted({35, 65});
   std::map<bytes, BStr, BLess> m;
+  if (allow_huge && maxn >= 100 && chance(1)) {
+    // a table with just over 2^16 entries (counts and per-table offsets cross 16-bit boundaries); tiny entries
+    int cnt = pick(65530, 65545);
+    for (int i = 0; i < cnt; i++) {
+      char k[16];
+      snprintf(k, sizeof k, "%05x", i * 3);
+      BStr v;
+      if (i % 11 == 0) v.lit = bytes(1, (char)i);
+      m[bytes(k)] = v;
+    }
+    n = 0;
+  }
   for (int i = 0; i < n; i++) {
     bytes k = gen_key_bytes(*uni, allow_huge && profile == 2);
     if (m.count(k)) continue;
